@@ -240,6 +240,9 @@ K_MDE = Kind('mde', Md, VMdEntry)
 K_AW = Kind('aw', Aw, VAw)
 K_OBJ = Kind('obj', Obj, lambda t: VRef(t, None))
 K_STRING = Kind('string', z3.StringSort(), VString)
+c_none_obj = z3.Const('none_obj', Obj)
+K_STREAM = Kind('stream', Obj, lambda t: VRef(t, 'Stream'))
+K_OPTLOOP = Kind('optloop', Obj, lambda t: VRef(t, 'IOLoop?'))
 
 _seqkinds = {}
 
